@@ -146,7 +146,7 @@ def c08(res, tier, seed, replay):
         for cfgname in cfgs:
             for cache, ctag in CACHES:
                 runs.append({"name": f"cache-{cfgname}-{ctag}-{s}",
-                             "args": ["-mode", "cache", "-config", cfgname, "-cache", cache, "-seed", seed * 100 + s, "-hist", hist,
+                             "args": ["-mode", "cache", "-repeat-upd", "-config", cfgname, "-cache", cache, "-seed", seed * 100 + s, "-hist", hist,
                                       "-batches", batches, "-rank", 3, "-panel-every", 3, "-sample", 40]})
             runs.append({"name": f"cache-{cfgname}-mem-{s}",
                          "args": ["-mode", "rank", "-config", cfgname, "-mem", "-seed", seed * 100 + 30 + s, "-hist", hist,
@@ -159,7 +159,7 @@ def c08(res, tier, seed, replay):
         for cfgname in ("flat-binlearn", "vamana-binlearn"):
             for cache, ctag in CACHES:
                 runs.append({"name": f"cache-{cfgname}-{ctag}-{s}",
-                             "args": ["-mode", "cache", "-config", cfgname, "-cache", cache, "-seed", seed * 100 + 90 + s, "-hist", 2,
+                             "args": ["-mode", "cache", "-repeat-upd", "-config", cfgname, "-cache", cache, "-seed", seed * 100 + 90 + s, "-hist", 2,
                                       "-batches", 14, "-rank", 3, "-panel-every", 0]})
     results = drive_and_validate(res, runs)
     for r in results[:1]:
